@@ -139,8 +139,66 @@ func decidedCond(cond ssa.Value, b *ssa.BasicBlock) tri {
 			}
 			return res(triFalse)
 		}
+		// the same comparison written a second time, or its complement
+		// (`err == nil` … `err != nil`): registers do not change
+		if same, neg := sameComparison(fv, v); same {
+			if ft != neg {
+				return res(triTrue)
+			}
+			return res(triFalse)
+		}
 	}
 	return triUnknown
+}
+
+// sameComparison: a and b compare the same two registers (or a register and
+// equal constants) with the same operator (same) or with complementary
+// operators (same and neg).
+func sameComparison(a, b ssa.Value) (same, neg bool) {
+	x, ok1 := a.(*ssa.BinOp)
+	y, ok2 := b.(*ssa.BinOp)
+	if !ok1 || !ok2 || x == y {
+		return false, false
+	}
+	sameOperand := func(p, q ssa.Value) bool {
+		if p == q {
+			return true
+		}
+		cp, ok1 := p.(*ssa.Const)
+		cq, ok2 := q.(*ssa.Const)
+		if !ok1 || !ok2 || !types.Identical(cp.Type(), cq.Type()) {
+			return false
+		}
+		if cp.Value == nil || cq.Value == nil {
+			return cp.Value == nil && cq.Value == nil
+		}
+		return constant.Compare(cp.Value, token.EQL, cq.Value)
+	}
+	if !sameOperand(x.X, y.X) || !sameOperand(x.Y, y.Y) {
+		return false, false
+	}
+	if isFloatType(x.X.Type()) {
+		return x.Op == y.Op && isCompareOp(x.Op), false // NaN: `<` is not the complement of `>=`
+	}
+	if !isCompareOp(x.Op) || !isCompareOp(y.Op) {
+		return false, false
+	}
+	if x.Op == y.Op {
+		return true, false
+	}
+	compl := map[token.Token]token.Token{token.EQL: token.NEQ, token.NEQ: token.EQL, token.LSS: token.GEQ, token.GEQ: token.LSS, token.GTR: token.LEQ, token.LEQ: token.GTR}
+	if compl[x.Op] == y.Op {
+		return true, true
+	}
+	return false, false
+}
+
+func isCompareOp(op token.Token) bool {
+	switch op {
+	case token.EQL, token.NEQ, token.LSS, token.LEQ, token.GTR, token.GEQ:
+		return true
+	}
+	return false
 }
 
 // foldIf replaces the conditional ending block x by a jump to the successor
@@ -235,4 +293,9 @@ func foldDecided(f *ssa.Function, decide func(cond ssa.Value, b *ssa.BasicBlock)
 		}
 	}
 	return did
+}
+
+func isFloatType(t types.Type) bool {
+	b, ok := t.Underlying().(*types.Basic)
+	return ok && b.Info()&(types.IsFloat|types.IsComplex) != 0
 }
